@@ -6,6 +6,7 @@ import JominiModel.Proofs.TextDeTape
 import JominiModel.Proofs.TextDeTapeNested
 import JominiModel.Proofs.TextEndToEnd
 import JominiModel.Proofs.TextDeKnown
+import JominiModel.Proofs.TextDeAgree
 /-
 C02 — Text deserialization returns the document's values on both parse paths.
 Only property theorems live here; helper lemmas are in `Proofs/TextDe*.lean`.
@@ -159,6 +160,70 @@ example :
     simp only [List.mem_cons, Prod.mk.injEq, List.not_mem_nil, or_false] at hm
     obtain ⟨_, _, rfl⟩ := hm
     exact FitsT.scalar rfl
+
+/-! ### every target type: error agreement and where it ends -/
+
+/-- Error agreement for EVERY root target type (not only fitting ones): for every well-formed
+save-style document, the tape path and the stream path return the same result -- `ok` with the same
+value, or `error` with the same error class -- and that result is the spec's `valueOf`; unless the
+(type, document) pair contains one of the combinations of `Bad` (`any` on an object or a header
+value; an enum on a container; a sequence on a non-array; a map / struct on a non-empty array or a
+header value; `Property` outside field position).  `Bad` is necessary for a disagreement, and every
+atomic combination of it does disagree on some document: `C02_divergent_witnesses`. -/
+theorem C02_error_agreement (enc : Enc) (ty : Ty) (d : Doc) (hroot : Ty.isRoot ty = true)
+    (hwf : wfFields d = true) :
+    (deTape enc ty (tapeOf d) = deStream enc ty (lexemes d) ∧ deTape enc ty (tapeOf d) = valueOf enc ty d) ∨
+    Bad enc false ty (.obj d) :=
+  error_agreement enc ty d hroot hwf
+
+/-- the agreeing side of `C02_error_agreement` contains errors: an integer requested for an object,
+a struct requested for a scalar, an unparsable number -- both paths answer with the same error class -/
+example : deTape .utf8 (.st [([120], .i64), ([121], .st []), ([122], .u32)])
+      (tapeOf [([120], .eq, .obj []), ([121], .eq, .leaf ⟨[49], false⟩)]) = .error .type ∧
+    deStream .utf8 (.st [([120], .i64), ([121], .st []), ([122], .u32)])
+      (lexemes [([120], .eq, .obj []), ([121], .eq, .leaf ⟨[49], false⟩)]) = .error .type := by
+  constructor <;> rfl
+
+/-- the classification is exhaustive -/
+theorem C02_fits_or_bad (enc : Enc) (ty : Ty) (b : Bool) (v : Node) : FitsT enc b ty v ∨ Bad enc b ty v :=
+  fitsT_or_bad enc (ty.height + 1) ty b v (Nat.lt_succ_self _)
+
+/-- Every atomic combination of `Bad` is a real divergence: for each (type, value) pair of
+`divergentWitnesses` (`any` on an object / on an array holding an object / on a header value, an
+enum on an object / array, a sequence on a scalar / object / header value, a map or struct on a
+non-empty array / header value, `Property` as an array element / nested), the document
+`x=<value> w=z` deserialized into `st(x:<type>, w:opt(str))` gives DIFFERENT results on the two
+paths (different values, or different error classes, or one succeeds).  The same witnesses run
+against the real code in the harness (fixed cases `divergent:*`), where each path is compared with
+its model. -/
+theorem C02_divergent_witnesses :
+    ∀ p ∈ Jomini.TextE2E.divergentWitnesses,
+      deTape .utf8 (Jomini.TextE2E.witnessTy p.1) (tapeOf (Jomini.TextE2E.witnessDoc p.2)) ≠
+      deStream .utf8 (Jomini.TextE2E.witnessTy p.1) (lexemes (Jomini.TextE2E.witnessDoc p.2)) := by
+  intro p hp heq
+  have h := List.all_eq_true.mp Jomini.TextE2E.divergent_all p hp
+  rw [Jomini.TextE2E.resBeq_of_eq heq] at h
+  exact absurd h (by decide)
+
+/-- `any` on an object: the tape path presents a map, the stream path the bare token sequence
+(`deserialize_any` on `Token::Open` is `deserialize_seq`, and the stream `SeqAccess` yields one element
+per token, operators included) -- so no shared `valueOf` exists there, while `any` on arrays of
+scalars / arrays / header values (any depth) is inside `Fits` and covered by every C02 theorem. -/
+theorem C02_any_on_object_paths_differ :
+    deTape .utf8 (.st [([120], .any)]) (tapeOf [([120], .eq, .obj [([97], .eq, .leaf ⟨[49], false⟩)])])
+      = .ok (.st [([120], .map [(.str [97], .str [49])])]) ∧
+    deStream .utf8 (.st [([120], .any)]) (lexemes [([120], .eq, .obj [([97], .eq, .leaf ⟨[49], false⟩)])])
+      = .ok (.st [([120], .seq [.str [97], .str [61], .str [49]])]) := by
+  constructor <;> rfl
+
+/-- `any` on nested arrays (with a header value inside): both paths, the spec's tree -/
+example : deTape .utf8 (.st [([120], .any)])
+      (tapeOf [([120], .eq, .arr [.leaf ⟨[49], false⟩, .arr [.leaf ⟨[50], true⟩], .hdr [114] (.arr [])])])
+      = .ok (.st [([120], .seq [.str [49], .seq [.str [50]], .str [114], .seq []])]) ∧
+    deStream .utf8 (.st [([120], .any)])
+      (lexemes [([120], .eq, .arr [.leaf ⟨[49], false⟩, .arr [.leaf ⟨[50], true⟩], .hdr [114] (.arr [])])])
+      = .ok (.st [([120], .seq [.str [49], .seq [.str [50]], .str [114], .seq []])]) := by
+  constructor <;> rfl
 
 /-! ### the known findings, on the models (the fragment boundaries of the theorems above are tight) -/
 
